@@ -13,6 +13,21 @@ fn guard<F: FnOnce()>(name: &str, arg: String, f: F, out: &mut Vec<Value>, count
     }
 }
 
+/// like `guard`, for calls that may not come back: the call runs on its own thread; not returning within 5 s is reported
+fn guard_timed<F: FnOnce() + Send + 'static>(name: &str, arg: String, f: F, out: &mut Vec<Value>, count: &mut usize) {
+    *count += 1;
+    let (tx, rx) = std::sync::mpsc::channel();
+    std::thread::spawn(move || {
+        let r = catch_unwind(AssertUnwindSafe(f));
+        let _ = tx.send(r.err().map(|p| p.downcast_ref::<String>().cloned().or(p.downcast_ref::<&str>().map(|s| s.to_string())).unwrap_or_default()));
+    });
+    match rx.recv_timeout(std::time::Duration::from_secs(5)) {
+        Ok(None) => {}
+        Ok(Some(msg)) => out.push(json!({"fn": name, "arg": arg, "panic": msg})),
+        Err(_) => out.push(json!({"fn": name, "arg": arg, "panic": "the call did not return within 5 s"})),
+    }
+}
+
 pub fn run() -> Value {
     let mut panics = vec![];
     let mut n = 0usize;
@@ -154,6 +169,29 @@ pub fn run() -> Value {
         guard("CharacterData::parse_integer", String::new(), || { let _ = cd.parse_integer::<i8>(); }, &mut panics, &mut n);
         guard("CharacterData::parse_float", String::new(), || { let _ = cd.parse_float(); }, &mut panics, &mut n);
         guard("CharacterData::cmp", String::new(), || { let _ = cd.partial_cmp(&CharacterData::Float(f64::NAN)); }, &mut panics, &mut n);
+    }
+    // loading: documents with processing instructions, comments and odd but legal constructs at every structural position
+    {
+        let hdr = "<?xml version=\"1.0\" encoding=\"utf-8\"?>\n";
+        let root = "<AUTOSAR xsi:schemaLocation=\"http://autosar.org/schema/r4.0 AUTOSAR_00050.xsd\" xmlns=\"http://autosar.org/schema/r4.0\" xmlns:xsi=\"http://www.w3.org/2001/XMLSchema-instance\">";
+        let pi = "<?xml-stylesheet type=\"text/xsl\" href=\"x.xsl\"?>";
+        let docs: Vec<String> = vec![
+            format!("{hdr}{pi}\n{root}<AR-PACKAGES/></AUTOSAR>"),
+            format!("{hdr}{root}{pi}<AR-PACKAGES>{pi}<AR-PACKAGE><SHORT-NAME>a</SHORT-NAME>{pi}</AR-PACKAGE></AR-PACKAGES></AUTOSAR>{pi}"),
+            format!("{pi}{hdr}{root}</AUTOSAR>"),
+            format!("{hdr}<?tool?>{root}</AUTOSAR>"),
+            format!("{hdr}{root}<AR-PACKAGES><AR-PACKAGE><SHORT-NAME></SHORT-NAME></AR-PACKAGE></AR-PACKAGES></AUTOSAR>"),
+            format!("{hdr}<!-- c -->{root}<!-- c --><AR-PACKAGES><!-- c --></AR-PACKAGES><!-- c --></AUTOSAR><!-- c -->"),
+            format!("{hdr}{root}<AR-PACKAGES><AR-PACKAGE><SHORT-NAME>a</SHORT-NAME><DESC><L-2 L=\"EN\">t{pi}u<!-- c -->v</L-2></DESC></AR-PACKAGE></AR-PACKAGES></AUTOSAR>"),
+        ];
+        for (i, d) in docs.into_iter().enumerate() {
+            for strict in [true, false] {
+                let dd = d.clone();
+                guard_timed("AutosarModel::load_buffer", format!("document {i} strict={strict}"), move || { let _ = AutosarModel::new().load_buffer(dd.as_bytes(), "p.arxml", strict); }, &mut panics, &mut n);
+            }
+            let dd = d.clone();
+            guard_timed("check_buffer", format!("document {i}"), move || { let _ = check_buffer(dd.as_bytes()); }, &mut panics, &mut n);
+        }
     }
     // the interpretation functions on texts with multi-byte characters at every small offset, empty and prefix-only texts
     for s in ["", "0", "0x", "0X", "0b", "0B", "00", "+", "-", "0x\u{e9}", "5\u{b0}C", "1\u{b5}s", "3\u{20ac}", "0\u{d7}10", "\u{ff11}", "\u{ff11}\u{ff10}", "\u{20ac}5", "\u{e9}", "0\u{e9}", "0b\u{e9}",
